@@ -1329,6 +1329,15 @@ func proveLenAtLeast(p *Program, in ssa.Instruction, v ssa.Value, n int64) bool 
 	return c.entails(newLin(n).sub(ln))
 }
 
+// proveNonNeg: v >= 0 follows from the conditions that dominate the instruction.
+func proveNonNeg(p *Program, in ssa.Instruction, v ssa.Value) bool {
+	linSteps = 0
+	defer func() { recover() }()
+	c := &linCtx{p: p, fn: in.Parent(), atoms: map[string]ssa.Value{}, seenAt: map[string]bool{}}
+	c.dominatingFacts(in.Block())
+	return c.entails(newLin(0).sub(c.lin(v, 0)))
+}
+
 func proveSliceInBounds(p *Program, x *ssa.Slice) bool {
 	linSteps = 0
 	defer func() { recover() }()
